@@ -627,4 +627,336 @@ Section Rules.
     destruct (is_var v); [reflexivity|]. destruct (va_expected (v_ann v)) as [t|]; [|reflexivity].
     rewrite (coercion_erase q pi v t true Hn). reflexivity.
   Qed.
+
+  (** ** validateFields, second pass: the field-merging rule *)
+  Variable pi : order.
+  Hypothesis Hpi : order_ok pi.
+
+  Lemma pi_In {A} (l : list A) x : In x (pi A l) -> In x l.
+  Proof. intro H. eapply Permutation.Permutation_in; [apply Hpi | exact H]. Qed.
+
+  Definition oksel (s : selection) : Prop := ok (tree_sel s).
+  Definition oks (ss : selset) : Prop := ok (tree_ss ss).
+  Definition fp_ok (x : fp) : Prop := oksel (fst3 x) /\ vsc (snd (fst x)).
+  Definition fmap_ok (m : fmap) : Prop := forall k l, In (k, l) m -> Forall fp_ok l.
+  Definition frags_ok (A : document) : Prop := forall n d, frag_last A n = Some d -> oks (def_sub d).
+
+  Lemma frags_ok_doc A : ok (tree_doc A) -> frags_ok A.
+  Proof. intros H n d Hd. apply ok_def_sub. eapply ok_doc_def; [exact H | eapply frag_last_In; eauto]. Qed.
+
+  Lemma oks_inv a sels p : oks (SelSet a sels p) -> vsc a /\ Forall oksel sels.
+  Proof.
+    unfold oks. cbn [tree_ss]. intro H. apply nodes_ok_T in H as [Ha Hs]. split; [exact Ha|].
+    apply Forall_forall. intros s Hs'. rewrite Forall_forall in Hs. apply Hs. apply in_map. exact Hs'.
+  Qed.
+
+  Lemma oksel_sub s ss : oksel s -> sel_sub s = Some ss -> oks ss.
+  Proof.
+    unfold oksel, oks. destruct s as [a al n np args dirs sub | n np dirs e | cond dirs sub e]; cbn [sel_sub tree_sel]; intros H Es.
+    - subst sub. apply nodes_ok_T in H as [_ H]. rewrite Forall_forall in H. apply H.
+      apply in_or_app; right. apply in_or_app; right. apply in_or_app; right. apply in_or_app; right. left; reflexivity.
+    - discriminate.
+    - inversion Es; subst ss. apply nodes_ok_T in H as [_ H]. rewrite Forall_forall in H. apply H.
+      apply in_or_app; right. apply in_or_app; right. left; reflexivity.
+  Qed.
+
+  Lemma oksel_fann s : oksel s -> vis_ofield (sel_fann s).
+  Proof.
+    unfold oksel. destruct s as [a al n np args dirs sub | |]; try (intros; exact I).
+    cbn [tree_sel sel_fann]. intro H. apply nodes_ok_T in H as [H _]. exact H.
+  Qed.
+
+  Lemma fmap_ok_nil : fmap_ok [].
+  Proof. unfold fmap_ok. intros k l H. destruct H. Qed.
+
+  Lemma fmap_add_ok k x m : fp_ok x -> fmap_ok m -> fmap_ok (fmap_add k x m).
+  Proof.
+    intros Hx. induction m as [|[k' l] r IH]; intros Hm; cbn [fmap_add].
+    - intros k0 l0 [H | []]. inversion H; subst. constructor; [exact Hx | constructor].
+    - destruct (name_eqb k k').
+      + intros k0 l0 [H | H].
+        * inversion H; subst. apply Forall_app. split; [eapply Hm; left; reflexivity | constructor; [exact Hx | constructor]].
+        * apply (Hm k0 l0). right; exact H.
+      + intros k0 l0 [H | H]; [apply (Hm k0 l0); left; exact H|].
+        apply (IH (fun k1 l1 H1 => Hm k1 l1 (or_intror H1)) k0 l0 H).
+  Qed.
+
+  Lemma collect_ok q A : frags_ok A -> forall fuel m visited ss m' v',
+    fmap_ok m -> oks ss -> collect q A fuel m visited ss = COk m' v' -> fmap_ok m'.
+  Proof.
+    intros HA fuel. induction fuel as [|fuel' IH]; intros m visited ss m' v' Hm Hss H; [discriminate|].
+    destruct ss as [a sels p]. cbn [collect] in H. destruct (oks_inv a sels p Hss) as [Va Hsels]. clear Hss.
+    destruct (pmem p visited).
+    - destruct (q_revisit_ok q); [inversion H; subst; exact Hm | discriminate].
+    - revert H. generalize (p :: visited). revert m Hm.
+      induction sels as [|s r IHr]; intros m Hm vis H.
+      + inversion H; subst. exact Hm.
+      + inversion Hsels as [|x l Hs Hr]; subst.
+        destruct s as [a0 al n np args dirs sub | n np dirs e | cond dirs sub e].
+        * apply (IHr Hr _ (fmap_add_ok _ (SField a0 al n np args dirs sub, a, p) m (conj Hs Va) Hm) vis H).
+        * destruct (frag_last A n) as [d|] eqn:FL; [|discriminate].
+          destruct (collect q A fuel' m vis (def_sub d)) as [m1 v1 | e1 |] eqn:C1; try discriminate.
+          apply (IHr Hr m1 (IH _ _ _ _ _ Hm (HA n d FL) C1) v1 H).
+        * destruct (collect q A fuel' m vis sub) as [m1 v1 | e1 |] eqn:C1; try discriminate.
+          apply (IHr Hr m1 (IH _ _ _ _ _ Hm (oksel_sub _ sub Hs eq_refl) C1) v1 H).
+  Qed.
+
+  Lemma add_selections_ok q A m sub m' v :
+    frags_ok A -> fmap_ok m -> (forall ss, sub = Some ss -> oks ss) ->
+    add_selections q A m sub = COk m' v -> fmap_ok m'.
+  Proof.
+    intros HA Hm Hsub. unfold add_selections. destruct sub as [ss|].
+    - intro H. eapply collect_ok; eauto.
+    - intro H; inversion H; subst. exact Hm.
+  Qed.
+
+  Lemma first_err_ext {A} (f g : A -> mres) l : (forall x, In x l -> f x = g x) -> first_err f l = first_err g l.
+  Proof.
+    induction l as [|x r IH]; intro H; [reflexivity|]. cbn [first_err].
+    rewrite (H x (or_introl eq_refl)). destruct (g x); try reflexivity. apply IH. intros y Hy. apply H. right; exact Hy.
+  Qed.
+
+  Lemma pairs_first_ext {A} (f g : A -> A -> mres) l :
+    (forall x y, In x l -> In y l -> f x y = g x y) -> pairs_first f l = pairs_first g l.
+  Proof.
+    induction l as [|x r IH]; intro H; [reflexivity|]. cbn [pairs_first].
+    rewrite (first_err_ext (f x) (g x) r) by (intros y Hy; apply H; [left; reflexivity | right; exact Hy]).
+    destruct (first_err (g x) r); try reflexivity. apply IH. intros a b Ha Hb. apply H; right; assumption.
+  Qed.
+
+  Lemma shape_loop_names : forall tA tB a b, shape_loop tA tB = inl (a, b) ->
+    (forall n, a = StNamed n -> n = unwrapped tA) /\ (forall n, b = StNamed n -> n = unwrapped tB).
+  Proof.
+    fix IH 1. intros tA tB a b. destruct tA as [x | a' | a0]; cbn [shape_loop].
+    - destruct (is_nonnull tB) eqn:NN; [discriminate|]. destruct (is_list tB) eqn:L; [discriminate|].
+      intro H; inversion H; subst. split; [intros n E0; inversion E0; reflexivity|].
+      intros n E0. subst. reflexivity.
+    - destruct (is_nonnull tB); [discriminate|]. destruct tB as [y | b' | b0]; try discriminate.
+      intro H. apply (IH a' b' a b H).
+    - destruct tB as [y | b' | b0]; try discriminate.
+      destruct a0 as [x | a' | a1].
+      + destruct (is_list b0) eqn:L; [discriminate|]. intro H; inversion H; subst.
+        split; [intros n E0; inversion E0; reflexivity|]. intros n E0. subst. reflexivity.
+      + destruct b0 as [y | b' | b1]; try discriminate. intro H. apply (IH a' b' a b H).
+      + destruct (is_list b0) eqn:L; [discriminate|]. intro H; inversion H; subst.
+        split; [intros n E0; discriminate|]. intros n E0. subst. reflexivity.
+  Qed.
+
+  Lemma shape_type_names s t : oksel s -> shape_type s = inl t -> okname (unwrapped t).
+  Proof.
+    intros Hs. unfold shape_type. destruct (name_eqb (sel_name s) n_typename).
+    - intro H; inversion H; subst. cbn [unwrapped]. apply string_okname.
+    - pose proof (oksel_fann s Hs) as Vf. destruct (sel_fann s) as [f|]; [|discriminate].
+      intro H; inversion H; subst. left. apply (proj1 Vf).
+  Qed.
+
+  Section Merge.
+    Variable q : quirks.
+    Variable A : document.
+    Hypothesis HA : frags_ok A.
+
+    Lemma same_shape_erase depth : forall X Y, oksel X -> oksel Y ->
+      same_shape q pi E A depth X Y = same_shape q pi S A depth X Y.
+    Proof.
+      induction depth as [|d IH]; intros X Y HX HY; [reflexivity|]. cbn [same_shape].
+      destruct (shape_type X) as [tA | eA] eqn:SX; [|reflexivity].
+      destruct (shape_type Y) as [tB | eB] eqn:SY; [|reflexivity].
+      destruct (shape_loop tA tB) as [[a b] | k] eqn:SL; [|reflexivity].
+      destruct (shape_loop_names _ _ _ _ SL) as [Na Nb].
+      rewrite (is_leaf_sty_erase a) by (intros n En; rewrite (Na n En); apply (shape_type_names X tA HX SX)).
+      rewrite (is_leaf_sty_erase b) by (intros n En; rewrite (Nb n En); apply (shape_type_names Y tB HY SY)).
+      destruct (is_leaf_sty S a || is_leaf_sty S b); [reflexivity|].
+      destruct (add_selections q A [] (sel_sub X)) as [m1 v1 | e1 |] eqn:A1; try reflexivity.
+      destruct (add_selections q A m1 (sel_sub Y)) as [m2 v2 | e2 |] eqn:A2; try reflexivity.
+      pose proof (add_selections_ok q A [] (sel_sub X) m1 v1 HA fmap_ok_nil (fun ss Es => oksel_sub X ss HX Es) A1) as M1.
+      pose proof (add_selections_ok q A m1 (sel_sub Y) m2 v2 HA M1 (fun ss Es => oksel_sub Y ss HY Es) A2) as M2.
+      apply first_err_ext. intros [k l] Hg. apply pi_In in Hg. cbn [snd].
+      pose proof (M2 k l Hg) as Hl. rewrite Forall_forall in Hl.
+      apply pairs_first_ext. intros x y Hx Hy. apply IH; [apply (Hl x Hx) | apply (Hl y Hy)].
+    Qed.
+
+    Lemma pair_check_erase (r1 r2 : fmap -> mres) depth x y :
+      (forall m, fmap_ok m -> r1 m = r2 m) -> fp_ok x -> fp_ok y ->
+      pair_check q pi E A r1 depth x y = pair_check q pi S A r2 depth x y.
+    Proof.
+      intros Hr [Hx Vx] [Hy Vy]. unfold pair_check. cbv zeta.
+      rewrite (same_shape_erase depth _ _ Hx Hy).
+      destruct (same_shape q pi S A depth (fst3 x) (fst3 y)); try reflexivity.
+      destruct (snd (fst x)) as [pa|]; [|reflexivity]. destruct (snd (fst y)) as [pb|]; [|reflexivity].
+      rewrite (is_object_name_erase pa (or_introl Vx)), (is_object_name_erase pb (or_introl Vy)).
+      destruct (name_eqb pa pb || negb (is_object_name S pa) || negb (is_object_name S pb)); [|reflexivity].
+      destruct (negb (name_eqb (sel_name (fst3 x)) (sel_name (fst3 y)))); [reflexivity|].
+      destruct (args_check q (fst3 x) (fst3 y)); try reflexivity.
+      destruct (add_selections q A [] (sel_sub (fst3 x))) as [m1 v1 | e1 |] eqn:A1; try reflexivity.
+      destruct (add_selections q A m1 (sel_sub (fst3 y))) as [m2 v2 | e2 |] eqn:A2; try reflexivity.
+      apply Hr.
+      pose proof (add_selections_ok q A [] (sel_sub (fst3 x)) m1 v1 HA fmap_ok_nil (fun ss Es => oksel_sub _ ss Hx Es) A1) as M1.
+      apply (add_selections_ok q A m1 (sel_sub (fst3 y)) m2 v2 HA M1 (fun ss Es => oksel_sub _ ss Hy Es) A2).
+    Qed.
+
+    Lemma can_merge_eq S0 depth m :
+      can_merge q pi S0 A depth m =
+      first_err (fun g => pairs_first
+                            (pair_check q pi S0 A (match depth with O => fun _ => MOk | Datatypes.S d => can_merge q pi S0 A d end) depth)
+                            (snd g)) (pi _ m).
+    Proof. destruct depth; reflexivity. Qed.
+
+    Lemma can_merge_erase depth : forall m, fmap_ok m -> can_merge q pi E A depth m = can_merge q pi S A depth m.
+    Proof.
+      induction depth as [|d IH]; intros m Hm; rewrite (can_merge_eq E), (can_merge_eq S);
+        apply first_err_ext; intros [k l] Hg; apply pi_In in Hg; cbn [snd];
+        pose proof (Hm k l Hg) as Hl; rewrite Forall_forall in Hl;
+        apply pairs_first_ext; intros x y Hx Hy; apply pair_check_erase; auto.
+    Qed.
+
+    Lemma merge_enter_erase st n : wa_node' n -> merge_enter q pi E A st n = merge_enter q pi S A st n.
+    Proof.
+      intros [_ Hn]. destruct n; try reflexivity. unfold merge_enter.
+      destruct (add_selections q A [] (Some s)) as [m v | e |] eqn:A1; try reflexivity.
+      rewrite can_merge_erase; [reflexivity|].
+      apply (add_selections_ok q A [] (Some s) m v HA fmap_ok_nil (fun ss Es => match Es in (_ = y) return (match y with Some z => oks z | None => True end) with eq_refl => Hn end) A1).
+    Qed.
+  End Merge.
+
+  Theorem rule_fields_erase q A : ok (tree_doc A) -> rule_fields q pi E G A = rule_fields q pi S F A.
+  Proof.
+    intro HA. unfold rule_fields. cbv zeta.
+    destruct (inspect_ext_inv stack_ok wa_node (fields_enter E G) (fields_enter S F) pop
+                fields_enter_erase fields_enter_stack pop_stack (tree_doc A) HA rst0) as [E1 _]; [constructor|].
+    rewrite E1.
+    destruct (inspect_ext_inv (fun _ => True) wa_node' (merge_enter q pi E A) (merge_enter q pi S A) (fun s => s)
+                (fun st n _ Hn => merge_enter_erase q A (frags_ok_doc A HA) st n Hn) (fun _ _ _ _ => I) (fun _ _ => I)
+                (tree_doc A) (ok_strengthen _ (closed_doc A) HA)
+                (inspect (fields_enter S F) pop (tree_doc A) rst0) I) as [E2 _].
+    rewrite E2. reflexivity.
+  Qed.
+
+  Theorem rule_values_erase q A : ok (tree_doc A) -> rule_values q pi E A = rule_values q pi S A.
+  Proof.
+    intro HA. unfold rule_values.
+    destruct (inspect_ext_inv (fun _ => True) wa_node (values_enter q pi E) (values_enter q pi S) (fun s => s)
+                (fun st n _ Hn => values_enter_erase q pi st n Hn) (fun _ _ _ _ => I) (fun _ _ => I)
+                (tree_doc A) HA rst0 I) as [E1 _].
+    rewrite E1. reflexivity.
+  Qed.
+
+  (** ** validateFragmentSpreads, given that getPossibleTypes of a visible type answers alike *)
+  Hypothesis PT : forall tn, alive tn = true -> possible_types E tn = possible_types S tn.
+
+  Lemma validate_spread_erase q st tc parent :
+    vsc parent -> validate_spread q pi E G st tc parent = validate_spread q pi S F st tc parent.
+  Proof.
+    intro V. unfold validate_spread. destruct parent as [pn|]; [|reflexivity]. simpl in V.
+    rewrite (is_composite_name_erase pn (or_introl V)).
+    destruct (q_leaf_parent q && negb (is_composite_name S pn)); [reflexivity|].
+    rewrite (named_type_erase S F G Hok HFG). destruct (named_type S F (fst tc)) as [b|] eqn:NT; cbn [option_map]; [|reflexivity].
+    replace (is_composite_body (verase_body alive F b)) with (is_composite_body b) by (destruct b; reflexivity).
+    destruct (is_composite_body b); [|reflexivity].
+    rewrite (PT (fst tc) (named_type_visible S F _ _ NT)), (PT pn V). reflexivity.
+  Qed.
+
+  Lemma spreads_enter_erase q A st n :
+    stack_ok st -> wa_node n -> spreads_enter q pi E G A st n = spreads_enter q pi S F A st n.
+  Proof.
+    intros Hst Hn. unfold stack_ok in Hst. destruct n as [| | | | | | | ss | s | | |]; try reflexivity.
+    destruct s as [a al fname np args dirs sub | fname np dirs e | cond dirs sub e]; try reflexivity; unfold spreads_enter.
+    - destruct (frag_last A fname) as [[|kw n0 np0 cond dirs0 sub0]|]; try reflexivity.
+      destruct (r_stack st) as [|top rest]; [reflexivity|].
+      rewrite validate_spread_erase; [reflexivity | inversion Hst; assumption].
+    - destruct cond as [tc|]; [|reflexivity].
+      destruct (r_stack st) as [|top rest]; [reflexivity|].
+      rewrite validate_spread_erase; [reflexivity | inversion Hst; assumption].
+  Qed.
+
+  Lemma spreads_enter_stack q A st n : stack_ok st -> wa_node n -> stack_ok (fst (spreads_enter q pi S F A st n)).
+  Proof.
+    intros Hst Hn. unfold stack_ok in *.
+    assert (K : exists x, r_stack (fst (spreads_enter q pi S F A st n)) = x :: r_stack st /\ vsc x).
+    { destruct n as [| | | | | | | ss | s | | |]; try (exists None; split; [reflexivity | exact I]).
+      - exists (ss_ann ss). split; [reflexivity | exact Hn].
+      - exists None. split; [|exact I].
+        destruct s as [a al fname np args dirs sub | fname np dirs e | cond dirs sub e]; try reflexivity; unfold spreads_enter.
+        + destruct (frag_last A fname) as [[|kw n0 np0 cond dirs0 sub0]|]; try reflexivity.
+          destruct (r_stack st) as [|top rest] eqn:RS; cbn [fst push r_stack set_abort]; [rewrite RS; reflexivity|].
+          unfold validate_spread.
+          repeat match goal with
+                 | |- context [match ?x with _ => _ end] => destruct x
+                 | |- context [if ?x then _ else _] => destruct x
+                 end; cbn [fst push r_stack add_errs set_abort]; rewrite ?RS; reflexivity.
+        + destruct cond as [tc|]; [|reflexivity].
+          destruct (r_stack st) as [|top rest] eqn:RS; cbn [fst push r_stack set_abort]; [rewrite RS; reflexivity|].
+          unfold validate_spread.
+          repeat match goal with
+                 | |- context [match ?x with _ => _ end] => destruct x
+                 | |- context [if ?x then _ else _] => destruct x
+                 end; cbn [fst push r_stack add_errs set_abort]; rewrite ?RS; reflexivity. }
+    destruct K as [x [Ex Vx]]. rewrite Ex. constructor; assumption.
+  Qed.
+
+  Lemma fold_stack {A0} (f : rst -> A0 -> rst) l : (forall st a, r_stack (f st a) = r_stack st) ->
+    forall st, r_stack (fold_left f l st) = r_stack st.
+  Proof. intro H. induction l as [|a r IH]; intro st; [reflexivity|]. cbn [fold_left]. rewrite IH. apply H. Qed.
+
+  Theorem rule_spreads_erase q A : ok (tree_doc A) ->
+    rule_fragment_spreads q pi E G A = rule_fragment_spreads q pi S F A.
+  Proof.
+    intro HA. unfold rule_fragment_spreads. cbv zeta.
+    match goal with |- finish (inspect _ _ _ ?x0) = _ => set (st1 := x0) end.
+    assert (I1 : stack_ok st1).
+    { unfold stack_ok, st1. rewrite fold_stack; [constructor|].
+      intros st a. destruct (cycle_search pi A (graph_fuel A) a [a] []) as [[|]|]; try reflexivity.
+      destruct (frag_last A a); reflexivity. }
+    destruct (inspect_ext_inv stack_ok wa_node (spreads_enter q pi E G A) (spreads_enter q pi S F A) pop
+                (spreads_enter_erase q A) (spreads_enter_stack q A) pop_stack (tree_doc A) HA st1 I1) as [E1 _].
+    rewrite E1. reflexivity.
+  Qed.
+
+  (** ** ValidateDocument *)
+  Theorem validate_eq q D : validate_model q pi E G D = validate_model q pi S F D.
+  Proof.
+    unfold validate_model. rewrite (type_info_erase S F G Hok HFG).
+    destruct (type_info (q_unwrap_obj q) S F D) as [A|] eqn:TI; [|reflexivity].
+    pose proof (type_info_nodes_ok (q_unwrap_obj q) D A TI) as HA.
+    assert (R : all_rules q pi E G A = all_rules q pi S F A).
+    { unfold all_rules, rule_fragments.
+      destruct (rules_small_erase S F G Hok HFG q pi A) as [R1 [R2 R3]].
+      rewrite (rule_fields_erase q A HA), R2, R1, (rule_spreads_erase q A HA), (rule_values_erase q A HA), R3,
+              (rule_variables_erase S F G Hok HFG (q_unwrap_obj q) pi D A TI).
+      reflexivity. }
+    rewrite R. reflexivity.
+  Qed.
 End Rules.
+
+(** ** discharging [PT] on C04's model as it stands: no implementation listed for an interface the
+    request may see is gated (and [s_impls] lists every interface once) *)
+Definition impls_visible (S : schema) (F : features) : Prop :=
+  forall i l, assoc i (s_impls S) = Some l -> vvisible S F i = true -> forall o, In o l -> vvisible S F o = true.
+
+Lemma possible_types_no_gated_impls S F :
+  vok S = true -> vnodup (map fst (s_impls S)) = true -> impls_visible S F ->
+  forall tn, vvisible S F tn = true -> possible_types (verase S F) tn = possible_types S tn.
+Proof.
+  intros Hok Hnd HI tn V. unfold possible_types. rewrite (raw_body_erase S F Hok tn V).
+  destruct (alive_inv S F tn V) as [d [L R]]. unfold raw_body. rewrite L. cbn [option_map].
+  destruct (t_body d) as [k | vals | ifs | fields ifs | fields | ms] eqn:B; cbn [verase_body]; try reflexivity.
+  - (* interface *)
+    f_equal. unfold verase. cbn [s_impls].
+    rewrite (vassoc_map (filter (vvisible S F)) tn).
+    rewrite (vassoc_filter (fun il => vvisible S F (fst il))) by exact Hnd.
+    destruct (assoc tn (s_impls S)) as [l|] eqn:A; [|reflexivity]. cbn [fst]. rewrite V. cbn [option_map].
+    apply filter_all. intros o Ho. apply (HI tn l A V o Ho).
+  - (* union: the members of a visible union are visible *)
+    f_equal. apply filter_all. intros m Hm.
+    pose proof (type_ok_of S Hok tn d L) as T. unfold vtype_ok in T. rewrite B in T.
+    rewrite forallb_forall in T. specialize (T m Hm). unfold req_of in T. unfold vvisible.
+    destruct (raw_type S m) as [dm|]; [|discriminate]. eapply subset_trans; eauto.
+Qed.
+
+Theorem validate_eq_no_gated_impls S F G pi q D :
+  vok S = true -> subset F G = true -> order_ok pi ->
+  vnodup (map fst (s_impls S)) = true -> impls_visible S F ->
+  validate_model q pi (verase S F) G D = validate_model q pi S F D.
+Proof.
+  intros Hok HFG Hpi Hnd HI.
+  apply (validate_eq S F G Hok HFG pi Hpi (possible_types_no_gated_impls S F Hok Hnd HI)).
+Qed.
